@@ -1,0 +1,97 @@
+//go:build verif
+
+package zset
+
+import "fmt"
+
+// VerifCheck is a structural self-check of the sorted set: level 0 strictly ascending by
+// (score, member); length == dictionary size; every dictionary entry present with the
+// same score; per-level span sums equal rank differences; backward/tail pointers; level
+// bound.
+func (sortedSet *SortedSet) VerifCheck() error {
+	sl := sortedSet.skiplist
+	rank := map[*node]int64{sl.header: 0}
+	var i int64
+	var prev *node
+	for n := sl.header.level[0].forward; n != nil; n = n.level[0].forward {
+		i++
+		rank[n] = i
+		if prev != nil {
+			if !(prev.Score < n.Score || (prev.Score == n.Score && prev.Member < n.Member)) {
+				return fmt.Errorf("level 0 not strictly ascending at rank %d", i)
+			}
+			if n.backward != prev {
+				return fmt.Errorf("backward pointer wrong at rank %d", i)
+			}
+		} else if n.backward != nil {
+			return fmt.Errorf("first node has a backward pointer")
+		}
+		it, ok := sortedSet.dict.Get(n.Member)
+		if !ok {
+			return fmt.Errorf("node %q missing from the dictionary", n.Member)
+		}
+		if it.Score != n.Score {
+			return fmt.Errorf("node %q score %v, dictionary %v", n.Member, n.Score, it.Score)
+		}
+		prev = n
+		if i > 1<<24 {
+			return fmt.Errorf("level 0 does not terminate")
+		}
+	}
+	if sl.tail != prev {
+		return fmt.Errorf("tail pointer wrong")
+	}
+	if i != sl.length {
+		return fmt.Errorf("length %d, level-0 nodes %d", sl.length, i)
+	}
+	if int(i) != sortedSet.dict.Len() {
+		return fmt.Errorf("skiplist has %d nodes, dictionary %d", i, sortedSet.dict.Len())
+	}
+	if sl.level < 1 || sl.level > maxLevel {
+		return fmt.Errorf("level %d out of bounds", sl.level)
+	}
+	for lv := int16(0); lv < sl.level; lv++ {
+		n := sl.header
+		for n != nil {
+			if int(lv) >= len(n.level) {
+				return fmt.Errorf("node %q linked at level %d above its height", n.Member, lv)
+			}
+			f := n.level[lv].forward
+			var want int64
+			if f != nil {
+				r, ok := rank[f]
+				if !ok {
+					return fmt.Errorf("level %d reaches a node that is not on level 0", lv)
+				}
+				want = r - rank[n]
+			} else {
+				want = sl.length - rank[n]
+			}
+			if n.level[lv].span != want {
+				return fmt.Errorf("span at level %d after rank %d is %d, want %d", lv, rank[n], n.level[lv].span, want)
+			}
+			n = f
+		}
+	}
+	for lv := sl.level; lv < maxLevel; lv++ {
+		if sl.header.level[lv].forward != nil {
+			return fmt.Errorf("header linked above the list level at %d", lv)
+		}
+	}
+	return nil
+}
+
+// VerifDump returns the dictionary entries in member order and the level-0 sequence.
+func (sortedSet *SortedSet) VerifDump() (dict []Item, index []Item) {
+	sortedSet.dict.Scan(func(_ string, v *Item) bool {
+		dict = append(dict, *v)
+		return true
+	})
+	for n := sortedSet.skiplist.header.level[0].forward; n != nil; n = n.level[0].forward {
+		index = append(index, n.Item)
+		if len(index) > 1<<24 {
+			break
+		}
+	}
+	return
+}
